@@ -95,7 +95,7 @@ TraceNext ==
           /\ IF ev.ev = "init"
              THEN /\ cmax' = ev.max /\ cmin' = ev.min /\ nops' = 0
                   \* the prefill is one no-expiry Put per key at time 1
-                  /\ (/\ ~OpPanic(ev)
+                  /\ (/\ ~OpPanic(ev) /\ ~ev.jump
                       /\ (\/ ev.count # Cardinality(DOMAIN E2)
                           \/ \E k \in DOMAIN E2 : E2[k].c # 1 \/ E2[k].e # 0))
                         => PrintT(ToJson(<<"DRIFT", l, ev.beh, "init">>))
